@@ -108,6 +108,11 @@ def price_bounds(kind, s, m, t, v, K, call, eps):
         # quantities of size <= top + K; put adds K*(1-e^s): <= 8 roundings of that size.
         r = 8 * eps * (top + K)
         if zn in ("certain", "certain_at_kink"):
+            if kind == "european" and p == 0.0:
+                # A worthless option: its value range is [0, K] (put) or [0, S] (call) whatever the model, so an
+                # error of half that range is never "rounding" - without this cap the bound above is vacuous for a
+                # put once S = K*e^s is so large that K is below the resolution of S (s > ~16 in float32, ~36 in float64).
+                r = min(r, 0.5 * (S if call else K))
             return p - r, p + r, zn
         c = 1.0 if kind == "european" else 2.0
         return p - r, p + 1.01 * c * spread(top, t, v) + r, zn
